@@ -15,7 +15,7 @@ def ff_variants(tier, include_rm=True):
     out += [dict(links=[a]) for a in ids]
     # every unordered pair; both orders where the order of definition can matter (same interaction defined twice,
     # vetoes / removals that look at what earlier links did)
-    order_sensitive = {"bb", "bbA", "repl", "ver2", "nonedge", "rm", "partial"}
+    order_sensitive = {"bb", "bbA", "repl", "ver2", "nonedge", "rm", "partial", "startpatch"}
     for a, b in itertools.combinations(ids, 2):
         out.append(dict(links=[a, b]))
         if (a in order_sensitive and b in order_sensitive) or tier == "thorough":
@@ -42,7 +42,7 @@ def names_for(variant, n):
         return ("A", "B", "C", "D")
     if n == 3:
         return ("A", "B", "C")
-    if links & {"a_c", "edge_only", "pat"}:
+    if links & {"a_c", "edge_only", "pat", "repl_pat"}:
         return ("A", "C")
     return ("A", "B")
 
